@@ -61,7 +61,7 @@ pub fn helix_points(p: [f64; 6], ts: &[f64]) -> Vec<SpacePoint> {
     ts.iter().map(|t| sp_xyz(p[3] * (t + p[4]).cos() + p[0], p[3] * (t + p[4]).sin() + p[1], p[5] / (2.0 * PI) * t + p[2])).collect()
 }
 
-pub const FAMILIES: [&str; 19] = [
+pub const FAMILIES: [&str; 20] = [
     "helix with special pitch",
     "collinear ray through the origin",
     "collinear on the x axis",
@@ -81,6 +81,7 @@ pub const FAMILIES: [&str; 19] = [
     "equal radii, two or three distinct points",
     "two or three distinct radii",
     "few distinct points repeated",
+    "curler inside the drift volume with a gap in its hits",
 ];
 pub const PITCHES: [f64; 27] = [0.0, 5e-324, -5e-324, 1e-310, -1e-310, 1e-300, 1e-17, -1e-17, 1e-16, 2.2e-16, -2.2e-16, 1e-15, 1e-12, 1e-9, 1e-6, 1e-4, 1e-3, 1e-2, 0.1, -0.1, 0.5, 1.0, -1.0, 3.0, 10.0, 100.0, -100.0];
 
@@ -203,6 +204,37 @@ pub fn family(rng: &mut Rng, fam: usize, n: usize) -> Vec<SpacePoint> {
             let k = 3 + rng.usize(3);
             let base: Vec<SpacePoint> = (0..k).map(|_| sp(rng.range(0.06, 0.24), rng.range(-0.3, 0.3), z0 + rng.range(-0.05, 0.05))).collect();
             (0..n).map(|_| base[rng.usize(k)]).collect()
+        }
+        19 => {
+            // a low-momentum curler that stays inside the drift volume: hits over most of the revolution, none in a
+            // window placed at (or near) the point farthest from / closest to the beamline, or anywhere
+            let d = rng.range(0.145, 0.155);
+            let rad = rng.range(0.02, 0.0385);
+            let a = rng.range(-PI, PI);
+            let phase = rng.range(-PI, PI);
+            let h = if rng.chance(0.6) { 0.0 } else { *rng.pick(&[5e-324, 1e-300, 1e-12, 1e-6, 1e-3, 0.01, -0.01, 0.05]) };
+            let p = [d * a.cos(), d * a.sin(), z0.clamp(-1.0, 1.0), rad, phase, h];
+            // parameter (before adding the phase) of the farthest point is the direction of the axis: t + phase = a
+            let wrap = |x: f64| (x + PI).rem_euclid(2.0 * PI) - PI;
+            let far = wrap(a - phase);
+            let centre = match rng.below(4) {
+                0 => far + rng.range(-0.4, 0.4),
+                1 => wrap(far + PI) + rng.range(-0.4, 0.4),
+                2 => far,
+                _ => rng.range(-PI, PI),
+            };
+            let half = rng.range(0.1, 0.9);
+            let span = rng.range(2.0, 3.1);
+            let mut ts = Vec::new();
+            let mut tries = 0;
+            while ts.len() < n && tries < 100_000 {
+                tries += 1;
+                let t = rng.range(-span, span);
+                if wrap(t - centre).abs() > half {
+                    ts.push(t);
+                }
+            }
+            helix_points(p, &ts)
         }
         14 => {
             // hits stacked in z whose x-y scatter is 1e-16..1e-6 m: the fitted helix is extremely thin
